@@ -18,7 +18,7 @@ from __future__ import annotations
 import ast
 import re
 
-from .. import kinds
+from .. import inline, kinds
 from ..facts import UNKNOWN, call_name, dotted, kwarg, norm
 from ..util import contains, is_call_named
 
@@ -191,10 +191,17 @@ def check(run, ctx):
         (run.ok(N3, f"{nm} message operand", "builder receives the compared max_depth") if ok else run.finding(N3, nm, "operand", f"{nm}: the depth handed to the violation builder is not the compared max_depth", f.loc))
     for nm in ("create_nesting_violation", "create_typescript_nesting_violation", "create_rust_nesting_violation"):
         f = repo.func(f"{PKG}.violation_builder.NestingViolationBuilder.{nm}")
-        sk = next((c for c in ast.walk(f.node) if is_call_named(c, "build_from_params")), None)
+        # the builder may delegate to a private helper: look at the flattened function (helpers inlined, parameters substituted)
+        sk = next((c for c in inline.flat_nodes(repo, f) if is_call_named(c, "build_from_params", "Violation")), None)
         msg = kwarg(sk, "message") if sk else None
         names = {n.id for n in ast.walk(msg) if isinstance(n, ast.Name)} if msg is not None else set()
-        (run.ok(N3, f"{nm} message", "interpolates max_depth") if "max_depth" in names else run.finding(N3, nm, "message", f"{nm}: the message does not state the computed depth", f.loc))
+        # one level of local definitions (message = f"..."; text = str(max_depth))
+        for _ in range(2):
+            for a_ in inline.flat_nodes(repo, f):
+                if isinstance(a_, ast.Assign) and any(isinstance(t_, ast.Name) and t_.id in names for t_ in a_.targets):
+                    names |= {n.id for n in ast.walk(a_.value) if isinstance(n, ast.Name)}
+        depth_param = f.node.args.args[2].arg if len(f.node.args.args) > 2 else "max_depth"
+        (run.ok(N3, f"{nm} message", f"interpolates {depth_param}") if depth_param in names else run.finding(N3, nm, "message", f"{nm}: the message does not state the computed depth", f.loc))
     fd = repo.func(f"{PKG}.config.NestingConfig.from_dict")
     keys = [n.args[0].value for n in ast.walk(fd.node) if isinstance(n, ast.Call) and call_name(n) == "get" and n.args and isinstance(n.args[0], ast.Constant)]
     n_key = keys.count("max_nesting_depth")
